@@ -56,6 +56,7 @@ def run(tier):
     _c_taylor(chk, 4 if tier == "quick" else 5)
     _c_accelerations(chk)
     _d_wiring(chk)
+    _d_facade(chk)
     return chk
 
 
@@ -239,6 +240,58 @@ def _c_accelerations(chk):
                       + (" (pure reflection X -> -X: the Coriolis term changes sign)" if kind == "collinear" else ""),
                       sample=f"{label}: D(DP.X_H).X_H == _crtbp_accel(L(c))[3:6] (3 identities)")
     chk.count("functions partially evaluated", 5)
+
+
+def _d_facade(chk):
+    """What the point hands out for (form, degree) is that form at that degree: LibrationPoint.hamiltonian_system /
+    .hamiltonian go through _LibrationDynamicsService.hamsys / .hamiltonian, which are interpreted on a model centre manifold
+    whose pipeline returns a tagged Hamiltonian per form; the runtime system returned must carry the requested tag."""
+    LS = "hiten.algorithms.types.services.libration"
+    mod, cls = ri.find_def(LS, "_LibrationDynamicsService")
+    DEG = 6
+    for form in ("physical", "real_normal", "center_manifold_real"):
+        asked = []
+
+        def cm_for(deg):
+            asked.append(deg)
+            pipeline = SymObj(None, {"get_hamiltonian": lambda f, *a, **k: SymObj(None, {"name": f, "degree": deg, "hamsys": ("hamsys", f, deg)}, f"H[{f}]")}, "pipeline")
+            dyn = SymObj(None, {"pipeline": pipeline, "hamsys": ("hamsys", "center_manifold_real", deg)}, "cm.dynamics")
+            return SymObj(None, {"compute": lambda *a, **k: SymObj(None, {"hamsys": ("hamsys", "center_manifold_real", deg)}, "H[cm]"), "dynamics": dyn,
+                                 "hamsys": ("hamsys", "center_manifold_real", deg)}, "cm")
+
+        dom = SymObj(None, {}, "point")
+        svc = SymObj(ClassRef(mod, cls), {"domain_obj": dom, "_domain_obj": dom, "make_key": lambda *a: tuple(map(str, a)), "get_or_create": lambda k, f: f(),
+                                         "center_manifold": cm_for}, "service")
+        ip = Interp()
+        try:
+            got = ip.apply(ip.getattr(svc, "hamsys"), [DEG, form], {})
+            ham = ip.apply(ip.getattr(svc, "hamiltonian"), [DEG, form], {})
+        except OutsideFragment as exc:
+            raise AnalysisError(f"_LibrationDynamicsService.hamsys outside fragment: {exc}")
+        chk.check(got == ("hamsys", form, DEG), "C07.d-facade", f"{LS}::_LibrationDynamicsService.hamsys[{form}]",
+                  f"hamsys({DEG}, {form!r}) returns {got!r}: Hamilton's equations of another form (or degree) than the one asked for",
+                  sample=f"hamsys({DEG}, {form!r}) -> runtime system of the {form} Hamiltonian at degree {DEG}")
+        nm = ham.attrs.get("name") if isinstance(ham, SymObj) else None
+        chk.check(nm == form and ham.attrs.get("degree") == DEG, "C07.d-facade", f"{LS}::_LibrationDynamicsService.hamiltonian[{form}]",
+                  f"hamiltonian({DEG}, {form!r}) returns {ham!r} ({nm})", sample=f"hamiltonian({DEG}, {form!r}) -> pipeline.get_hamiltonian({form!r}) of the degree-{DEG} centre manifold")
+    chk.count("functions partially evaluated", 2)
+    # the facade passes (form, degree) in the service's parameter order
+    bmod, bcls = ri.find_def("hiten.system.libration.base", "LibrationPoint")
+    seen = {}
+    pt = SymObj(ClassRef(bmod, bcls), {"dynamics": SymObj(None, {"hamsys": lambda *a, **k: seen.setdefault("hamsys", (a, k)),
+                                                                  "hamiltonian": lambda *a, **k: seen.setdefault("hamiltonian", (a, k))}, "dynamics")}, "point")
+    ip = Interp()
+    ip.apply(ip.getattr(pt, "hamiltonian_system"), ["physical", DEG], {})
+    ip.apply(ip.getattr(pt, "hamiltonian"), [DEG, "physical"], {})
+    smeth = ri.class_member(mod, cls, "hamsys")
+    params = [a.arg for a in smeth[2].args.args][1:]
+    for name in ("hamsys", "hamiltonian"):
+        a, k = seen.get(name, ((), {}))
+        bound = dict(zip(params if name == "hamsys" else ["max_deg", "form"], a))
+        bound.update(k)
+        deg = bound.get("degree", bound.get("max_deg"))
+        chk.check(deg == DEG and bound.get("form") == "physical", "C07.d-facade", f"hiten.system.libration.base::LibrationPoint[{name}]",
+                  f"the facade calls dynamics.{name} with {a}, {k}", sample=f"dynamics.{name}(degree={DEG}, form='physical')")
 
 
 def _d_wiring(chk):
